@@ -1,10 +1,12 @@
 // C04 — the validator accepts valid models and rejects every rule violation (fault enumeration).
 //
-// One case = one valid-by-construction base model (kit/gen.h; for a share of the cases the imports are resolved against
-// in-memory library models through Importer::addModel + resolveImports) that must validate with zero issues, plus a
-// tape-chosen list of (fault family, location) pairs from the catalogue below. Every faulted copy is built through the
-// API again, validated, and must carry at least one ERROR whose referenceRule() is in the family's acceptable set.
-// The families are registered with FAMILY("name", ...): bin/plans.d/C04.py reads the names from this file for the class floors.
+// One case = one valid-by-construction base model (kit/gen.h; for half of the models with imports the imports are resolved
+// against in-memory library models through Importer::addModel + resolveImports) that must validate with zero issues, plus a
+// tape-chosen list of (fault family, location) pairs from the catalogue below — or, in sweep mode, one family at every
+// applicable location. Every faulted copy is built through the API again, validated, and must carry at least one ERROR
+// whose referenceRule() is in the family's acceptable set. Families, acceptable sets, location classes, findings: notes/C04.md.
+// The family names are listed in bin/plans.d/C04.families (class floors); regenerate it after a change of the catalogue:
+//     C04_LIST_FAMILIES=1 .build/asan/h/C04 > bin/plans.d/C04.families
 #include <libcellml>
 
 #include <libxml/parser.h>
